@@ -120,7 +120,9 @@ def meta(tier):
                 'deviation: drop / duplicate / garble (5 characters) each token, drop / duplicate each line, insert a zero-length '
                 'directive at each position, and the four must-reject replacements (undefined label, unknown mnemonic, operands no '
                 'variant accepts, value just outside its field on either side), a directive with an unresolvable label inserted at each '
-                'position (also directives that emit nothing: .fill 0, x); expression-length family (N in 8,16,24,32,64 tokens in every expression position); each '
+                'position (also directives that emit nothing: .fill 0, x); expression-length family (N in 8,16,24,32,64 tokens in every expression position); '
+                'wide-address family (address widths 24/32/40/64 x code at 7 addresses around 2^16, 2^24, 2^32, 2^40, 2^48 x every format, where a '
+                'format may be unable to express the address and the failure arises while the outputs are produced); each '
                 'under the output configurations (no pretty print / each of 4 formats / a window) with the output file pre-seeded with '
                 'a sentinel (and, for line-level deviations, absent); thorough: every pair of line-level deviations; '
                 'non-trivial = execution that ends in a rejection, or a must-reject deviation; states: n/a',
@@ -128,7 +130,7 @@ def meta(tier):
                    'timeout_s_inproc': 10, 'timeout_s_cli_confirmation': 60},
         'assumptions': ['termination is judged by a 10 s wall-clock budget per execution (normal executions take ~2 ms) and reported only '
                         'if the same input also exceeds 60 s through the real CLI in a fresh process'],
-        'floors': {'evaluations': 1000, 'nontrivial': 100, 'statuses': ['OK', 'REJECT'], 'clauses': ['invariants', 'must-reject', 'long-expression']},
+        'floors': {'evaluations': 1000, 'nontrivial': 100, 'statuses': ['OK', 'REJECT'], 'clauses': ['invariants', 'must-reject', 'long-expression', 'wide-address']},
         'nshards': 64, 'xcheck': 24,
     }
 
@@ -165,9 +167,9 @@ CONFIGS = [
 ]
 
 
-def execute(acc, lines, what, must, clause, cfg, preseed=True):
+def execute(acc, lines, what, must, clause, cfg, preseed=True, isa=None):
     files = {'main.asm': '\n'.join(lines) + '\n', 'inc.asm': INCLUDED}
-    case = Case(ISA, files, preseed=preseed, pretty=cfg.get('pretty'), start=cfg.get('start', 0), end=cfg.get('end'),
+    case = Case(isa or ISA, files, preseed=preseed, pretty=cfg.get('pretty'), start=cfg.get('start', 0), end=cfg.get('end'),
                 fill=cfg.get('fill', 0))
     out = acc.run(case)
     spec = {'type': 'c14', 'preseed': preseed, 'must_reject': must, 'deviation': what}
@@ -222,6 +224,20 @@ def shard(acc, tier, idx, n):
                 match = [d for d in second if d[0] == w2]
                 if match:
                     execute(acc, match[0][1], f'{bname}: {w1} + {w2}', None, 'invariants', CONFIGS[(ctr // n) % 2])
+    # ---- output-stage failures: addresses a format may be unable to express (wide address spaces) ------------------
+    for asz in (24, 32, 40, 64):
+        wide = dict(ISA, general=dict(ISA['general'], address_size=asz))
+        wide.pop('predefined', None)
+        for a in (0xFFFE, 0x10000, 0xFFFFFE, 0xFFFFFFFC, 0x100000000, (1 << 40) - 4, (1 << 48) + 5):
+            if a + 6 >= (1 << asz):
+                continue
+            for cfg in CONFIGS[:5]:
+                for pre in (True, False):
+                    ctr += 1
+                    if ctr % n != idx:
+                        continue
+                    body = [f'    .org {a}', 'start: nop', '    .byte 1, 2', '    ldi a, 5']
+                    execute(acc, body, f'{asz}-bit addresses, code at {a:#x}', None, 'wide-address', dict(cfg, start=a), preseed=pre, isa=wide)
     for nn in (8, 16, 24, 32, 64):
         for li, line in enumerate(long_expressions(nn)):
             ctr += 1
